@@ -55,7 +55,32 @@ Fixpoint compare_f (fuel : nat) (e : env) (a b : term) : comparison :=
       | _, _ => Z.compare (rank a) (rank b)
       end
   end.
-Definition compare_t (e : env) (a b : term) : comparison := compare_f UFUEL e a b.
+(** the same order on fully resolved terms, by structural recursion: what the
+    theorems are about; [compare_f] resolves lazily like the Go code, the
+    machine compares the resolved terms *)
+Fixpoint cmp_term (a b : term) : comparison :=
+  match a, b with
+  | Var x, Var y => Z.compare x y
+  | Flt x, Flt y => flt_cmp x y
+  | Int x, Int y => Z.compare x y
+  | Atom x, Atom y => str_cmp x y
+  | Cmp fa xs, Cmp fb ys =>
+      match Nat.compare (List.length xs) (List.length ys) with
+      | Eq =>
+          match str_cmp fa fb with
+          | Eq => (fix go (l1 l2 : list term) : comparison :=
+                     match l1, l2 with
+                     | x :: l1', y :: l2' => match cmp_term x y with Eq => go l1' l2' | c => c end
+                     | _, _ => Eq
+                     end) xs ys
+          | c => c
+          end
+      | c => c
+      end
+  | _, _ => Z.compare (rank a) (rank b)
+  end.
+
+Definition compare_t (e : env) (a b : term) : comparison := cmp_term (walk e a) (walk e b).
 
 (** insertion sort by the standard order, dropping equal elements:
     the specification of env.set (sort.Slice + dedupe) *)
